@@ -253,6 +253,11 @@ def handle (d : DState) (line : String) : DState × List String :=
            String.ofList res])
   | [.atom "sched-reset", now] =>
       ({ d with sched := { now := now.int!, env := d.env }, handles := [] }, [])
+  | [.atom "op", .atom "sleepl", dd, ll] =>
+      -- a sleep with late wake-ups: a sequence of advance / yield operations of the model
+      let s0 := { d.sched with log := [], env := d.env }
+      let s' := sleepLate SLEEPFUEL (s0.now + dd.int!) ll.int! s0
+      ({ d with sched := s' }, schedOut d s' none)
   | .atom "op" :: rest =>
       match toOp rest with
       | none => (d, ["bad-op"])
